@@ -1,5 +1,6 @@
 import Driver.Stream
 import Obao.Model.RaftFSM
+import Obao.Model.RaftChunk
 /-!
 Stateful driver stream `raftfsm` (C09): a group of model replicas driven with the same lines the Go harness
 drives real `FSM` objects with.
@@ -143,6 +144,16 @@ ended at `idx`: the verdict every replica reaches for that entry. `ldigest`: the
 structure LSt where
   st : St := []
   seen : List (Nat × Char) := []
+  /-- the chunking FSM in front of each replica (scenario cases; the leader cases feed whole operations) -/
+  chunkers : List (Nat × Obao.RaftChunk.Chunker) := []
+
+def LSt.chunker (l : LSt) (r : Nat) : Obao.RaftChunk.Chunker :=
+  match l.chunkers.find? (·.1 == r) with
+  | some (_, c) => c
+  | none => { held := [], termSeen := false }
+
+def LSt.setChunker (l : LSt) (r : Nat) (c : Obao.RaftChunk.Chunker) : LSt :=
+  { l with chunkers := (r, c) :: l.chunkers.filter (·.1 != r) }
 
 def lstep (l : LSt) (fs : List String) : LSt × String :=
   match fs with
@@ -152,6 +163,34 @@ def lstep (l : LSt) (fs : List String) : LSt × String :=
                     | some (_, v) => String.singleton v
                     | none => "no-such-entry")
     | none => (l, "bad-op")
+  | ["scenario", _, _] => (l, "ok")
+  | ["chunkpart", r, op, seq, num] =>
+    -- a chunk that does not complete its operation: stored, nothing reaches the FSM; answer = chunks of `op` held now
+    match parseNat? r, parseNat? op, parseNat? seq, parseNat? num with
+    | some r, some op, some seq, some num =>
+      let (c', done) := (l.chunker r).apply op seq num
+      if done then (l, "model-completes") else
+      (l.setChunker r c', s!"held:{(c'.held.filter (·.1 == op)).length}")
+    | _, _, _, _ => (l, "bad-op")
+  | ["chunkfinal", r, op, seq, num, ent] =>
+    -- the last chunk of an operation: when the others are still held the re-assembled entry is applied at this index
+    match parseNat? r, parseNat? op, parseNat? seq, parseNat? num with
+    | some r, some op, some seq, some num =>
+      let (c', done) := (l.chunker r).apply op seq num
+      let l1 := l.setChunker r c'
+      if done then
+        let (st', out) := step l1.st ["batch", toString r, ent]
+        ({ l1 with st := st' }, out)
+      else
+        match l1.st[r]? with
+        | some rep => (l1, "dropped|" ++ showState rep)
+        | none => (l1, "bad-op")
+    | _, _, _, _ => (l, "bad-op")
+  | ["restart", r] =>
+    let (st', out) := step l.st fs
+    match parseNat? r with
+    | some r => (({ l with st := st' }).setChunker r (l.chunker r).restart, out)
+    | none => ({ l with st := st' }, out)
   | ["ldigest"] =>
     match l.st[0]? with
     | some rep => (l, showDigest rep.kv)
@@ -161,7 +200,7 @@ def lstep (l : LSt) (fs : List String) : LSt × String :=
     match ents.mapM parseEntry? with
     | some es =>
       let vs := ((out.splitOn "|").headD "").toList
-      if vs.length = es.length then ({ st := st', seen := l.seen ++ (es.map (·.idx)).zip vs }, out)
+      if vs.length = es.length then ({ l with st := st', seen := l.seen ++ (es.map (·.idx)).zip vs }, out)
       else ({ l with st := st' }, out)
     | none => ({ l with st := st' }, out)
   | _ => let (st', out) := step l.st fs; ({ l with st := st' }, out)
